@@ -449,6 +449,8 @@ def m_sorted(ip, x, key=None, reverse=False):
 
 
 def m_set(ip, x=()):
+  if isinstance(x, SOpq) and ip.contract and ("set", x.kind) in ip.contract.hooks:
+    return ip.contract.hooks[("set", x.kind)](ip, x)
   it = as_iterable(ip, x)
   if isinstance(it, list):
     if any(is_symbolic(v) for v in it): ip.unsupported("set() of symbolic values")
@@ -633,6 +635,7 @@ def call_method(ip, base, name, args, kwargs, node=None):
     ip.unsupported("str.%s on symbolic string" % name, node)
   if isinstance(base, SOpq):
     f = ip.contract.opq_methods.get((base.kind, name)) if ip.contract else None
+    if f is None and ip.contract: f = ip.contract.hooks.get(("method", base.kind, name))
     if f is not None: return None, f(ip, base, *args, **kwargs)
     ip.unsupported("method %s of opaque %s" % (name, base.kind), node)
   if isinstance(base, Sym):
